@@ -155,7 +155,9 @@ pub fn guarded<R>(f: impl FnOnce() -> R) -> Result<R, String> {
         Ok(r) => Ok(r),
         Err(_) => {
             let (loc, msg) = LAST_PANIC.with(|p| p.borrow_mut().take()).unwrap_or_default();
-            if loc.contains("/verif/harness/") || msg.starts_with("harness:") {
+            // the harness crate's own locations are relative (`src/…`); hecs is a path dependency and
+            // reports absolute ones
+            if loc.starts_with("src/") || loc.contains("/harness/src/") || msg.starts_with("harness:") {
                 eprintln!("HARNESS-BUG panic at {}: {}", loc, msg);
                 std::process::exit(3);
             }
